@@ -22,7 +22,7 @@ RULE = (
     "Histories over 2-5 vertices of C01's full mutation alphabet (edge constructors of 6 classes incl. self-loops "
     "and None ends, v1=/v2=, link_*(dontdup), unlink, add_to_link/remove_from_link, add_vertex/unlink_from, "
     "Vertex(links=), load_adj_dict / load_adj_matrix on existing vertices) interleaved with flag toggles (Vertex.NEIGHBOR_CACHING on/off at arbitrary points, incl. "
-    "'mutate while off, query after on'), query points and an in-process nrpickler round-trip of the whole world.  "
+    "'mutate while off, query after on'), query points an in-process nrpickler round-trip of the whole world, and serialising the world (nrpickler / pickle / deepcopy) while the original keeps being used.  "
     "Each history is executed twice on fresh objects (A: flag forced off; B: generated flag schedule) and the full "
     "query battery - neighbors() for every vertex x 3 directions x 3 unknown modes x {no filter, shared callable, "
     "selective, fresh-but-equal bound method, unhashable callable}, bft/dft_*/bfs/dfs_* from every vertex under 4 "
@@ -46,7 +46,7 @@ TECHNIQUE = "differential stateful PBT: same Hypothesis-generated history execut
 
 OPS_W = (
     ["edge"] * 5 + ["v1"] * 3 + ["v2"] * 3 + ["link"] * 2 + ["unlink"] * 2
-    + ["al", "rl", "av", "uf"] + ["newv", "adj", "bulk"] + ["flag"] * 3 + ["query"] * 5 + ["repickle"]
+    + ["al", "rl", "av", "uf"] + ["newv", "adj", "bulk"] + ["flag"] * 3 + ["query"] * 5 + ["repickle", "dumponly"]
 )
 
 # coverage-guided extra engine (atheris): executions per fuzzer process, 16 processes
@@ -93,6 +93,16 @@ def run_ops(w, ops, flagged):
             flags.append(bool(Vertex.NEIGHBOR_CACHING))
             between.append(cur)
             cur = []
+            continue
+        if name == "dumponly":
+            # the world is serialised (copy, pickle and nrpickler alike) and the ORIGINAL keeps being used
+            try:
+                import copy as _copy
+
+                [lambda: nrpickler.dumps((w.vs, w.ls)), lambda: _copy.deepcopy((w.vs, w.ls)), lambda: pickle.dumps((w.vs, w.ls))][r[1] % 3]()
+                cur.append("dumponly")
+            except Exception as e:  # noqa (e.g. closures among cache keys are not picklable by the stdlib pickler)
+                cur.append("dumponly-raised-" + type(e).__name__)
             continue
         if name == "repickle":
             try:
